@@ -220,6 +220,14 @@ func (r *rig) judge() *gx.Outcome {
 	if hang {
 		out.Obs += " HANG"
 	}
+	for k, v := range r.stats {
+		for i := 0; i < v; i++ {
+			out.Stat(k)
+		}
+	}
+	if len(r.cl.Produced) > 0 || len(r.events) > 0 {
+		out.Stat("nontrivial-executions")
+	}
 	out.Stat("trigger:" + trigName(p))
 	out.Stat("gen:" + p.Gen)
 	if os.Getenv("VERIF_REPLAY") != "" {
